@@ -41,12 +41,13 @@ CFG = {
     ]],
     "trusted_base": [
         "Lean 4.33.0 kernel; axioms of every theorem printed by #print axioms must be within {propext, Classical.choice, Quot.sound}",
-        "Mem.lean (memory model behind C10_input_unchanged_partial) covers the point-slice loop only and is not executed against the code; the input-untouched clause is tied by the before/after/scribble comparison of the real slices on every gt line",
+        "Mem.lean (memory model of the eight Transform methods behind C10_input_unchanged) is tied by execution: on every gt line the judge lays the input out in a Mem as the harness does (separate arrays / windows of one buffer / prefix re-slices), runs Mem.transformTop and compares the decoded result with the functional model (hence with the implementation); the real slices are additionally compared before/after/after scribbling",
+        "Ctors.lean (constructors' writes) is a hand transcription; its write SETS are re-extracted from the Go source by go/ast on every run (Ties/*.lean), the values/conditions are covered by the state dumps (every SR = as parsed or after one constructor run) and the wd records (fields changed by one run are within the write set)",
         "model lean/GeomV/C10/{GeomTransform,Transformer}.lean is tied to /repo/transform.go and /repo/proj/{transform,adjust_axis}.go by the correspondence run on every check: "
         "Geom.Transform results compared exactly (bit patterns); transformer results compared bit-for-bit with the model instantiated by oracle tables "
         "(projection forward/inverse, constructor errors through the exported API; datumTransform through hook proj.VerifDatumTransform, build tag verif) filled from the real code, and the SR objects' full "
         "field dumps (reflection, unexported datum included) compared after every call with 'as parsed' / 'as left by one constructor run'",
-        "the hypothesis CoreOK of C10_pure (re-running a projection constructor on an initialised SR changes nothing; it never writes Name/Axis/ToMeter/"
+        "the hypothesis CoreOK of C10_pure is a theorem for Ctors.lean (C10_CoreOK_ctors); for the Go constructors themselves (re-running a projection constructor on an initialised SR changes nothing; it never writes Name/Axis/ToMeter/"
         "FromGreenwich/DatumCode/datum; datumTransform leaves the datums as found) is not proved about the Go constructors: it is checked on the real "
         "objects after every generated call (state tags) — any other state is a DIFF",
         "IEEE-754 double arithmetic of Lean's Float (C) equals Go's for * + - / and negation (NaN payloads excluded)",
